@@ -186,6 +186,29 @@ def corpus():
           {"o": P, "op": "select", "dst": "p4", "src": "p3", "cols": [C(["name", "x"], "b"), C(["frame", "p1"], "c")]},
           {"o": P, "op": "collect", "src": "p4"}, {"o": P, "op": "sqltext", "src": "p4"}]
     cases.append(("history-alias-is-P-alias", p7, h6))
+    # 8 -- the history mirrors P: same source frames, same shape, alias names swapped between the inputs
+    p8 = [{"o": P, "op": "create", "dst": "p0", "tbl": "T1"}, {"o": P, "op": "create", "dst": "p1", "tbl": "T2"},
+          {"o": P, "op": "alias", "dst": "p2", "src": "p0", "name": "x"}, {"o": P, "op": "alias", "dst": "p3", "src": "p1", "name": "y"},
+          {"o": P, "op": "join", "dst": "p4", "l": "p2", "r": "p3", "on": ["expr", C(["name", "x"], "a"), C(["name", "y"], "a")]},
+          {"o": P, "op": "select", "dst": "p5", "src": "p4", "cols": [C(["name", "x"], "a"), C(["name", "y"], "a")]},
+          {"o": P, "op": "collect", "src": "p5"}, {"o": P, "op": "sqltext", "src": "p5"}]
+    cases.append(("mirror-alias-names-swapped", p8, G.mirror_history(random.Random(0), p8), ("after",)))
+    # 9 -- the history registered P's view name first: same columns in another order / a superset / a subset;
+    #      P reads its own registration with * and with explicit columns
+    p9 = [{"o": P, "op": "create", "dst": "p0", "tbl": "T1"}, {"o": P, "op": "view", "src": "p0", "name": "v"},
+          {"o": P, "op": "sql", "dst": "p1", "view": "v", "cols": None}, {"o": P, "op": "collect", "src": "p1"},
+          {"o": P, "op": "sql", "dst": "p2", "view": "v", "cols": ["b", "a"]}, {"o": P, "op": "collect", "src": "p2"},
+          {"o": P, "op": "where", "dst": "p3", "src": "p1", "col": C(None, "a"), "k": 1}, {"o": P, "op": "collect", "src": "p3"},
+          {"o": P, "op": "sqltext", "src": "p1"}]
+    for nm, tbl, sel in (("order", "T4", None), ("superset", "T5", None), ("subset", "T4", ["b"])):
+        h9 = [{"o": H, "op": "create", "dst": "h0", "tbl": tbl}]
+        src = "h0"
+        if sel:
+            h9.append({"o": H, "op": "select", "dst": "h1", "src": "h0", "cols": [C(None, c) for c in sel]})
+            src = "h1"
+        h9 += [{"o": H, "op": "view", "src": src, "name": "v"}, {"o": H, "op": "sql", "dst": "h2", "view": "v", "cols": None},
+               {"o": H, "op": "collect", "src": "h2"}]
+        cases.append(("view-name-first-registered-" + nm, p9, h9, ("before",)))
     return cases
 
 
@@ -232,24 +255,31 @@ def run(ctx: core.Ctx):
         pyspark = None
     rnd = random.Random(ctx.seed)
     quick = ctx.tier == "quick"
-    n_hist = 45 if quick else 400
-    n_solo = 25 if quick else 250
+    n_hist = 40 if quick else 400
+    n_solo = 16 if quick else 250
 
     # ---- cases -------------------------------------------------------------------------------------------
     cases = []   # dict(kind, p, h, trace)
-    for name, p, h in corpus():
-        for mode in ("before", "mix", "mix2"):
-            if mode == "before" and any(x and x[0] == "p" for st in h for x in [st.get("src"), st.get("l"), st.get("r")]):
-                # H reads P's frames: it cannot run entirely before P; put H after P's first step instead
-                tr = p[:1] + h + p[1:]
-            elif mode == "before":
-                tr = h + p
+    for entry in corpus():
+        name, p, h = entry[:3]
+        for mode in (entry[3] if len(entry) > 3 else ("before", "mix")):
+            if mode in ("before", "after"):
+                # H before P -- or, when it reads P's frames, right after the prefix of P that binds them
+                tr = G.after_reads(p, h)
             else:
                 tr = G.interleave(rnd, p, h, "mix")
             cases.append({"kind": "corpus:" + name, "mode": mode, "p": p, "trace": tr})
     hist_len, hist_ops = {}, {}
+    n_mirror = 0
     for i in range(n_hist):
         p, info = G.gen_program(rnd, rnd.randint(2, 6), "P", actions=rnd.choice([1, 2]))
+        hm = G.mirror_history(rnd, p) if i % 3 == 0 else None
+        if hm:
+            # other work of the same shape over the same source frames with the alias names permuted
+            p = G.creates_first(p)
+            cases.append({"kind": "random-mirror", "mode": "after", "p": p, "trace": G.after_reads(p, hm)})
+            n_mirror += 1
+            continue
         mode = rnd.choice(["before", "mix", "mix", "mix"])
         h, _ = G.gen_program(rnd, rnd.randint(1, 7), "H", info=dict(info) if mode != "before" else {},
                              allow_peer=(mode != "before"), actions=rnd.choice([0, 1]))
@@ -450,7 +480,7 @@ def run(ctx: core.Ctx):
         "catalog_listing_cases": n_tab, "catalog_listing_changed": n_tab_leak,
         "worker_processes": n_proc,
         "histogram_trace_length": dict(sorted(hist_len.items())), "histogram_owner_op": dict(sorted(hist_ops.items())),
-        "histogram_kind": {k: sum(1 for c in cases if c["kind"].split(":")[0] == k) for k in ("corpus", "random", "solo")},
+        "histogram_kind": {k: sum(1 for c in cases if c["kind"].split(":")[0] == k) for k in ("corpus", "random", "random-mirror", "solo")},
     })
     ctx.assumptions += [
         "uuid4 freshness: random ids / uuid literals are pairwise distinct and never equal a user-written name (oracle hypothesis "
